@@ -8,7 +8,7 @@ CHECKS = {
  "C16": ("exploration",
          "bounded-exhaustive enumeration of all DAGs x target sets x step sizes on the real implementation",
          "Every DAG on <=4 (thorough: 5) elements in two encodings, with input and uncached variants, every "
-         "non-empty target set and every step size 1..n+1 is run through generate_actions/execute_actions of the "
+         "non-empty target set listed in every order (up to 3 targets, ascending/descending beyond) and every step size 1..n+1 is run through generate_actions/execute_actions of the "
          "real code; each run is judged on target values, leftover values, recomputation (formula-start log) and "
          "plan well-formedness. Exhaustive inside these bounds, nothing sampled.",
          "Trusted: CPython 3.12, networkx, the tick() formula-start log, the closed-form reference values. "
@@ -16,11 +16,16 @@ CHECKS = {
          "DESIGN.md section 2 C16"),
  "C02": ("model_checking",
          "explicit-state BFS over edit/evaluation histories of the real implementation, differential oracle live vs edits-only twin",
-         "Every interleaving of <=3 (thorough: 4) edit and evaluation operations over the alphabets of 10 root models "
+         "Every interleaving of <=3 (thorough: 4) edit and evaluation operations over the alphabets of 14 root models "
          "(one per kind of dependency path: by-name reference, attribute path, _space/_model, object-valued reference, "
-         "inheritance, ItemSpace, parameter formula, recursion, built-in shadowing, space-valued reference) is replayed on "
-         "the real implementation; after each history all probe queries must equal those of a fresh model to which "
-         "only the edits were applied - literally the statement. States are merged by a canonical session state.",
+         "inheritance incl. two bases defining one name, ItemSpace, ItemSpaces of a sub, parameter formula, recursion, built-in "
+         "shadowing, space-valued reference, shadowed model-level reference read by attribute path, chains through two uncached "
+         "levels), from the cold state and from the state in which every probe was evaluated, is replayed on the real "
+         "implementation; after each history all probe queries must equal those of a fresh model to which only the edits were "
+         "applied - literally the statement; an edit accepted by that model must be accepted by the live one; where the reference "
+         "model defines the edited model the twin must equal the reference evaluator. Edits include recalc mode, copy and "
+         "sort of cells. States are merged by a canonical session state (definitions, held values, input marks, lazy freshness "
+         "bits, graphs).",
          "Trusted: the edits-only twin (same implementation, checked absolutely by C01), canonical-state merging "
          "(can hide only bugs depending on dict orders/weak caches), CPython 3.12. Bounds: depth, alphabets in mxmc/evalfam.py.",
          "DESIGN.md section 2 C02"),
@@ -37,7 +42,8 @@ CHECKS = {
  "C05": ("fault_enumeration",
          "exhaustive fault-point enumeration: BFS over arm/disarm/query histories on the real implementation, every element a failure point",
          "All DAG shapes on <=3 (thorough 4) elements written as def formulas, with uncached subsets, plus recursion, a catching "
-         "formula, lambdas/comprehensions and an ItemSpace shape; every element (and the ItemSpace node) x 5 exception kinds "
+         "formula, lambdas/comprehensions, an ItemSpace shape (cells-level allow_none differing from the space's) and a shape in "
+         "which allow_none of cells / spaces is edited between evaluations; every element (and the ItemSpace node) x 5 exception kinds "
          "(ValueError, custom Exception, ZeroDivisionError, custom BaseException, returning None) is armed in BFS histories of "
          "arm/disarm/query (depth 4/5, 1/2 faults). Oracle: reference evaluation with the same faults and held set; FormulaError "
          "wraps the very exception object; no element of the failing chain holds a value; completed ones keep values; executor "
@@ -75,14 +81,16 @@ CHECKS = {
          "Corpus of models x {directory, zip} x save histories gen1..gen_n; two-pass: count the N fault points of the last "
          "operation fault-free, then re-run once per point (raise-before, torn write/dump/rmtree, PermissionError in copy_file, EXDEV "
          "answer for the final move). Oracle: newest complete generation intact at path or _BAK1, backups ordered, zip destination "
-         "never partial, session clean and usable after failed saves and loads (every point of read_model, missing/truncated files).",
+         "never partial, session clean and usable after failed saves and loads (every point of read_model, missing/truncated files); "
+         "the fault-free save that follows every failed one must keep the complete generations in _BAK1.._BAK3, most recent first.",
          "Trusted: CPython audit events (open, os.rename, os.mkdir, os.remove, os.rmdir, os.scandir, shutil.*), wrapped file writes and "
          "pickler dumps as the set of failure points; byte-wise generation digests.",
          "DESIGN.md section 2 C14"),
  "C17": ("fault_enumeration",
          "exhaustive fault-point enumeration with histories of handled and unhandled failures; reference stack + line numbers as oracle",
          "Shapes with calls on known lines (def formulas), lambdas/comprehensions/generator expressions, uncached links, ItemSpace, a "
-         "formula that catches a callee's failure, small recursion limit; BFS over arm/disarm/query (depth 4/5, up to 2 armed "
+         "formula that catches a callee's failure, small recursion limit, and the session's error-reporting modes (FormulaError / "
+         "original exception raised / error printed); BFS over arm/disarm/query (depth 4/5, up to 2 armed "
          "faults) so every failure is preceded by successes, handled failures and unhandled failures. get_traceback() must list "
          "exactly the reference evaluator's stack at the moment the exception escaped, with the reference's line numbers, and "
          "get_error() must be the injected exception.",
@@ -91,9 +99,11 @@ CHECKS = {
  "C03": ("model_checking",
          "explicit-state BFS over member/base edits from ALL linearisable ordered-base DAGs on 3 spaces; CPython C3 + reference derivation + from-scratch differential as oracle",
          "Roots: all 28 ordered-base DAGs on 3 top-level spaces that have a C3 linearisation x all 8 placements of a cells name x all "
-         "8 placements of a reference name (1792 roots). BFS over new/delete/redefine cells, set/delete reference, add/remove base, "
-         "new space with ordered bases, delete space, cached-flag toggle (depth 1 everywhere, 2 on sparse roots; thorough 2/3). After "
-         "every accepted op, for every space: bases == type().__mro__ of CPython, members == reference derivation, derived copies "
+         "8 placements of a reference name, warm variants (all cells evaluated before and between edits), a space with three ordered "
+         "bases, and 309 five-space DAGs in which a space is reachable from an ancestor by paths of different lengths. BFS over "
+         "new/delete/redefine/rename cells, set/delete reference, add/remove base, new space with ordered bases, delete space, "
+         "cached-flag toggle (depth 1 everywhere, 2 on sparse roots; thorough 2/3). After every op (a rejected one must leave the "
+         "derivation from the unchanged definitions), for every space: bases == type().__mro__ of CPython, members == reference derivation, derived copies "
          "carry the first definer's formula/value/flag, derived flags, evaluation with names resolved in the sub, and the "
          "whole view == a model constructed from scratch out of the reference definitions.",
          "Trusted: CPython's C3, mxmc/refsem.py derivation, ops.apply_ref. Only ops the reference deems well-formed are generated (C11 "
@@ -101,7 +111,8 @@ CHECKS = {
          "DESIGN.md section 2 C03"),
  "C04": ("exploration",
          "bounded-exhaustive enumeration of models over a construct x attribute cross product, write/read differential",
-         "One focus construct (cells, reference, doc, parameter formula + ItemSpace inputs, inheritance shape, allow_none) taken over "
+         "One focus construct (cells, reference, doc, parameter formula + ItemSpace inputs next to child / base / model references, "
+         "inheritance shape, allow_none, prefix-related names) taken over "
          "the full cross product of its attributes, in several contexts, written to a directory and to a zip and read back (thorough: "
          "write-read-write-read chains, cold/warm): public description before == after, reference modes, values of all probes, "
          "readable, source untouched, zip members == directory files.",
@@ -132,16 +143,18 @@ CHECKS = {
          "and the states one structural op away. In each state every applicable invalid op of the catalogue (invalid names x 9 "
          "operations, name clashes in the space and in subs, cyclic / non-linearisable bases via add_bases and new_space, relative "
          "references that cannot be rebound, delete/rename derived members, malformed formulas, unassignable values, non-bases, "
-         "missing members). Raises => public description, all values, self-checks identical to before. Accepted => base relation "
+         "missing members, names taken from the definition, three-valued allow_none with existing inputs, source-less functions; "
+         "roots hold inputs in defined and in derived cells). Raises => public description, all values, self-checks identical to before. Accepted => base relation "
          "acyclic + CPython-C3 linearisable, names valid identifiers.",
          "Trusted: the description extractor; CPython C3. Nothing is demanded about which ops are rejected beyond well-formedness.",
          "DESIGN.md section 2 C11"),
  "C12": ("model_checking",
          "explicit-state BFS over clash-seeking member/base edit histories (rejections allowed); container/namespace invariants in every state",
-         "6 roots x alphabet of ~50 ops using the same two names as cells / reference / child space in different spaces, base changes, "
+         "7 roots x alphabet of ~55 ops using the same two names as cells / reference / child space in different spaces, base changes, "
          "model references vs space names, parameter names vs members; depth 3 (2 on four roots; thorough 4). Every static and dynamic "
          "space in every state: one kind per name; dir(), getattr and the globals seen by a probe formula == cells + refs + child "
-         "spaces, each bound to the container's object; mxsys._check_sanity() and model._impl._check_sanity() pass.",
+         "spaces, each bound to the container's object; a space-level reference hides the model-level one of its name in the space "
+         "and in the dynamic spaces built from it; mxsys._check_sanity() and model._impl._check_sanity() pass.",
          "Precedence between a member and a model-level reference / parameter of the same name is not fixed by the statement: either "
          "resolution is accepted.",
          "DESIGN.md section 2 C12"),
@@ -156,8 +169,8 @@ CHECKS = {
          "DESIGN.md section 2 C13"),
  "C15": ("exploration",
          "bounded-exhaustive enumeration of programs in the documented export subset; differential package (modelx import blocked) vs model",
-         "Programs = structure (15) x context/form (72) x name-use atom (54) x cached flags (4), slices of the product per tier "
-         "(2538 quick / 31276 thorough); every model is exported, the packages are imported in subprocesses in which importing "
+         "Programs = structure (16) x context/form (72) x name-use atom (56) x cached flags (4), slices of the product per tier "
+         "(2750 quick / ~33000 thorough); every model is exported, the packages are imported in subprocesses in which importing "
          "modelx raises, and every cells x arguments (incl. ItemSpace instances, nested) is compared: same value, cached == uncached, "
          "no modelx in sys.modules, export/import does not raise.",
          "Trusted: the program generator stays inside the documented subset (limitations section of export_model); queries on which the "
@@ -166,8 +179,9 @@ CHECKS = {
  "C20": ("exploration",
          "grammar-exhaustive enumeration of function texts (form x name x params x docstring x comment x body x indentation)",
          "Cross product of 14 forms (source text and function objects from a real module file, decorators, lambdas embedded in "
-         "assignments/calls, @defcells) x parameters x docstrings x comment positions x bodies x indentation (12222 texts quick, 112101 "
-         "thorough). Clauses: behaves like the plain function with globals bound in the space; formula.source is a self-contained "
+         "assignments/calls, @defcells) x parameters x docstrings x comment positions x bodies (incl. nested defs, lambdas, classes, "
+         "decorated nested defs / methods) x indentation (16422 texts quick, ~140000 thorough); function objects come from one module "
+         "file per worker that is rewritten for every text. Clauses: behaves like the plain function with globals bound in the space; formula.source is a self-contained "
          "definition under the cells' name; new_cells(source) reproduces source and behaviour; rename changes only the name; doc "
          "replacement (9 doc classes) changes only the docstring.",
          "Trusted: CPython compiling the generator's canonical text as reference function; token-based source comparison.",
@@ -185,8 +199,8 @@ CHECKS = {
          "DESIGN.md section 2 C18"),
  "C19": ("model_checking",
          "explicit-state BFS over registry histories (new_model / read_model / rename / close / edits) with handles to every model",
-         "Alphabet: new_model(None|X|Y|X_BAK1), read_model of a saved model (plain, name=, two corrupted trees failing midway), "
-         "rename(to, rename_old in {F,T}), close, edits, cross-model reference, query; <=3 (4) models per history; depth 4 (thorough 5). "
+         "Alphabet: new_model(None|X|Y|X_BAK1|Model2), read_model of a saved model (plain, name=, two corrupted trees failing midway), "
+         "rename(to, rename_old in {F,T}; incl. invalid names), close (incl. a stale handle), edits, cross-model reference, query; <=3 (4) models per history; depth 4 (thorough 5). "
          "Every state: mx.get_models() maps exactly each open handle's current name to it, names unique, nothing dropped on "
          "collisions (backup suffix), close removes exactly that model, descriptions of untouched models unchanged, values of models "
          "without a reference into the edited one unchanged.",
